@@ -171,20 +171,41 @@ func mergeBuild(c any, o any, path tree.Path) (any, error) {
 }
 
 func mergeDependsOn(c any, o any, path tree.Path) (any, error) {
-	right := convertIntoMapping(c, map[string]any{
+	right, err := convertIntoMapping(c, map[string]any{
 		"condition": "service_started",
 		"required":  true,
 	})
-	left := convertIntoMapping(o, map[string]any{
+	if err != nil {
+		return nil, fmt.Errorf("%s: %w", path, err)
+	}
+	left, err := convertIntoMapping(o, map[string]any{
 		"condition": "service_started",
 		"required":  true,
 	})
-	return mergeMappings(right, left, path)
+	if err != nil {
+		return nil, fmt.Errorf("%s: %w", path, err)
+	}
+	return mergeConvertedMappings(right, left, path)
 }
 
 func mergeNetworks(c any, o any, path tree.Path) (any, error) {
-	right := convertIntoMapping(c, nil)
-	left := convertIntoMapping(o, nil)
+	right, err := convertIntoMapping(c, nil)
+	if err != nil {
+		return nil, fmt.Errorf("%s: %w", path, err)
+	}
+	left, err := convertIntoMapping(o, nil)
+	if err != nil {
+		return nil, fmt.Errorf("%s: %w", path, err)
+	}
+	return mergeConvertedMappings(right, left, path)
+}
+
+// mergeConvertedMappings merges two values converted by convertIntoMapping; a base which is
+// neither a mapping nor a sequence can't be overridden
+func mergeConvertedMappings(right, left map[string]any, path tree.Path) (any, error) {
+	if right == nil && len(left) > 0 {
+		return nil, fmt.Errorf("cannot override %s", path)
+	}
 	return mergeMappings(right, left, path)
 }
 
@@ -250,15 +271,30 @@ func mergeUlimit(_ any, o any, p tree.Path) (any, error) {
 }
 
 func mergeIPAMConfig(c any, o any, path tree.Path) (any, error) {
+	originals, ok := c.([]any)
+	if !ok {
+		return nil, fmt.Errorf("cannot override %s: ipam config must be a sequence", path)
+	}
+	overrides, ok := o.([]any)
+	if !ok {
+		return nil, fmt.Errorf("cannot override %s: ipam config must be a sequence", path)
+	}
 	var ipamConfigs []any
-	for _, original := range c.([]any) {
-		right := convertIntoMapping(original, nil)
-		for _, override := range o.([]any) {
-			left := convertIntoMapping(override, nil)
-			if left["subnet"] != right["subnet"] {
+	for _, original := range originals {
+		right, err := convertIntoMapping(original, nil)
+		if err != nil || right == nil {
+			return nil, fmt.Errorf("cannot override %s: ipam config entries must be mappings", path)
+		}
+		for _, override := range overrides {
+			left, err := convertIntoMapping(override, nil)
+			if err != nil || left == nil {
+				return nil, fmt.Errorf("cannot override %s: ipam config entries must be mappings", path)
+			}
+			if !sameScalar(left["subnet"], right["subnet"]) {
 				// check if left is already in ipamConfigs, add it if not and continue with the next config
 				if !slices.ContainsFunc(ipamConfigs, func(a any) bool {
-					return a.(map[string]any)["subnet"] == left["subnet"]
+					m, ok := a.(map[string]any)
+					return ok && sameScalar(m["subnet"], left["subnet"])
 				}) {
 					ipamConfigs = append(ipamConfigs, left)
 					continue
@@ -270,7 +306,8 @@ func mergeIPAMConfig(c any, o any, path tree.Path) (any, error) {
 			}
 			// find index of potential previous config with the same subnet in ipamConfigs
 			indexIfExist := slices.IndexFunc(ipamConfigs, func(a any) bool {
-				return a.(map[string]any)["subnet"] == merged["subnet"]
+				m, ok := a.(map[string]any)
+				return ok && sameScalar(m["subnet"], merged["subnet"])
 			})
 			// if a previous config is already in ipamConfigs, replace it
 			if indexIfExist >= 0 {
@@ -284,23 +321,27 @@ func mergeIPAMConfig(c any, o any, path tree.Path) (any, error) {
 	return ipamConfigs, nil
 }
 
-func convertIntoMapping(a any, defaultValue map[string]any) map[string]any {
+func convertIntoMapping(a any, defaultValue map[string]any) (map[string]any, error) {
 	switch v := a.(type) {
 	case map[string]any:
-		return v
+		return v, nil
 	case []any:
 		converted := map[string]any{}
 		for _, s := range v {
+			key, ok := s.(string)
+			if !ok {
+				return nil, fmt.Errorf("unexpected value %v: expected a string", s)
+			}
 			if defaultValue == nil {
-				converted[s.(string)] = nil
+				converted[key] = nil
 			} else {
 				// Create a new map for each key
-				converted[s.(string)] = copyMap(defaultValue)
+				converted[key] = copyMap(defaultValue)
 			}
 		}
-		return converted
+		return converted, nil
 	}
-	return nil
+	return nil, nil
 }
 
 func copyMap(m map[string]any) map[string]any {
